@@ -153,19 +153,8 @@ def run(ctx):
                     ok = U(kwarg(r, "dropna")) == "dropna" and (ex != "extract_nd_array" or U(kwarg(r, "dim")) == "dim")
         ctx.check(ok, "C17.b", f"{ty}.{ex}:delegates", "delegates to the generic / pandas implementation with dropna (dim, mask) forwarded",
                   "the polars registration does not delegate with its arguments forwarded", fi.where)
-    bad_order = []
-    n_flat = 0
-    for fi in [con.functions[x] for x in ("extract_1d_array", "extract_weights", "extract_nd_array", "extract_and_concat_arrays")] + \
-            [m.func("_construction", "calculate_1d_frequencies")]:
-        for c in calls_in(fi.node):
-            if isinstance(c.func, ast.Attribute) and c.func.attr in ("flatten", "ravel", "reshape"):
-                n_flat += 1
-                o = kwarg(c, "order") or (c.args[0] if c.func.attr in ("flatten", "ravel") and c.args else None)
-                if o is not None and const_value(o) != "C":
-                    bad_order.append(f"{fi.qualname}: `{U(c)}`")
-    ctx.check(not bad_order and n_flat >= 3, "C17.b", "flattening:C-order", f"{n_flat} flatten / ravel calls, all in logical (C) order",
-              "multi-dimensional inputs are flattened in memory order: " + "; ".join(bad_order) + " - values and weights of transposed / "
-              "Fortran-ordered arrays are then paired differently than for the equivalent array", con.relpath)
+    wiring.flatten_order(ctx, "C17.b", m, "flattening:C-order")
+    wiring.discarded_mask(ctx, "C17.b", m, floor=3)
 
     # ---- C17.c refusals ---------------------------------------------------------------------------------------------------
     ctx.rule("C17.c", "non-numeric dtypes and nulls raise before anything is returned", 4)
